@@ -1,0 +1,271 @@
+//go:build verif
+
+package libinjection
+
+// Read-only accessors used by the verification harness in /verif.
+// This file only exists for the compiler when the build tag "verif" is set;
+// it adds no behaviour to the package and changes none.
+
+import (
+	"reflect"
+	"runtime"
+	"strings"
+)
+
+// VerifTok is a copy of one sqliToken plus the scan offsets of the tokenize
+// call that produced it.
+type VerifTok struct {
+	Cat    byte
+	Pos    int
+	Len    int
+	Count  int
+	Open   byte
+	Close  byte
+	Val    string
+	Before int
+	After  int
+}
+
+// VerifStats are the statistics of a sqliState.
+type VerifStats struct {
+	Tokens int
+	Folds  int
+	DDX    int
+	Hash   int
+}
+
+func verifCopyTok(t *sqliToken, before, after int) VerifTok {
+	return VerifTok{t.category, t.pos, t.len, t.count, t.strOpen, t.strClose, t.val, before, after}
+}
+
+func verifStats(s *sqliState) VerifStats {
+	return VerifStats{s.statsTokens, s.statsFolds, s.statsCommentDDX, s.statsCommentHash}
+}
+
+// VerifSQLiTokens runs the raw tokenizer over input under flags. status is
+// "" on normal return, "PANIC" if the package panicked and "RUNAWAY" if more
+// than len(input)+4 tokens were produced.
+func VerifSQLiTokens(input string, flags int) (toks []VerifTok, st VerifStats, end int, status string) {
+	defer func() {
+		if e := recover(); e != nil {
+			status = "PANIC"
+		}
+	}()
+	s := new(sqliState)
+	sqliInit(s, input, flags)
+	for {
+		before := s.pos
+		if !s.tokenize() {
+			break
+		}
+		toks = append(toks, verifCopyTok(s.current, before, s.pos))
+		if len(toks) > len(input)+4 {
+			return toks, verifStats(s), s.pos, "RUNAWAY"
+		}
+	}
+	return toks, verifStats(s), s.pos, ""
+}
+
+// VerifSQLiFold runs fold() on a fresh state and returns the folded tokens.
+func VerifSQLiFold(input string, flags int) (toks []VerifTok, st VerifStats, status string) {
+	defer func() {
+		if e := recover(); e != nil {
+			status = "PANIC"
+		}
+	}()
+	s := new(sqliState)
+	sqliInit(s, input, flags)
+	n := s.fold()
+	for i := 0; i < n && i < len(s.tokenVec); i++ {
+		toks = append(toks, verifCopyTok(&s.tokenVec[i], 0, 0))
+	}
+	return toks, verifStats(s), ""
+}
+
+// VerifSQLiFingerprint computes the fingerprint of input under flags on a
+// fresh state, and the blacklist/whitelist decision for it.
+func VerifSQLiFingerprint(input string, flags int) (fp string, black bool, verdict bool, st VerifStats, status string) {
+	defer func() {
+		if e := recover(); e != nil {
+			status = "PANIC"
+		}
+	}()
+	s := new(sqliState)
+	sqliInit(s, input, flags)
+	fp = s.sqliFingerprint(flags)
+	black = s.blacklist()
+	verdict = s.checkFingerprint()
+	return fp, black, verdict, verifStats(s), ""
+}
+
+// VerifIsSQLi is IsSQLi with panics turned into a status.
+func VerifIsSQLi(input string) (r bool, fp string, status string) {
+	defer func() {
+		if e := recover(); e != nil {
+			status = "PANIC"
+		}
+	}()
+	r, fp = IsSQLi(input)
+	return r, fp, ""
+}
+
+// VerifParseStringCore calls parseStringCore on a fresh token.
+func VerifParseStringCore(s string, pos, offset int, delim byte) (tok VerifTok, next int, status string) {
+	defer func() {
+		if e := recover(); e != nil {
+			status = "PANIC"
+		}
+	}()
+	t := new(sqliToken)
+	next = t.parseStringCore(s, len(s), pos, offset, delim)
+	return verifCopyTok(t, pos, next), next, ""
+}
+
+// VerifH5Tok is one token of the HTML5 tokenizer.
+type VerifH5Tok struct {
+	Type int
+	Off  int
+	Len  int
+}
+
+// VerifH5Tokens runs the HTML5 tokenizer from start context ctx.
+func VerifH5Tokens(input string, ctx int) (toks []VerifH5Tok, status string) {
+	defer func() {
+		if e := recover(); e != nil {
+			status = "PANIC"
+		}
+	}()
+	h := new(h5State)
+	h.init(input, ctx)
+	for h.next() {
+		toks = append(toks, VerifH5Tok{h.tokenType, len(input) - len(h.tokenStart), h.tokenLen})
+		if len(toks) > 2*len(input)+4 {
+			return toks, "RUNAWAY"
+		}
+	}
+	return toks, ""
+}
+
+// VerifIsXSSCtx is isXSS in one start context.
+func VerifIsXSSCtx(input string, ctx int) (r bool, status string) {
+	defer func() {
+		if e := recover(); e != nil {
+			status = "PANIC"
+		}
+	}()
+	return isXSS(input, ctx), ""
+}
+
+// VerifIsXSS is IsXSS with panics turned into a status.
+func VerifIsXSS(input string) (r bool, status string) {
+	defer func() {
+		if e := recover(); e != nil {
+			status = "PANIC"
+		}
+	}()
+	return IsXSS(input), ""
+}
+
+// VerifHTMLDecode is htmlDecodeByteAt.
+func VerifHTMLDecode(s string) (v int, c int, status string) {
+	defer func() {
+		if e := recover(); e != nil {
+			status = "PANIC"
+		}
+	}()
+	v, c = htmlDecodeByteAt(s)
+	return v, c, ""
+}
+
+// VerifIsBlackTag is isBlackTag.
+func VerifIsBlackTag(s string) (r bool, status string) {
+	defer func() {
+		if e := recover(); e != nil {
+			status = "PANIC"
+		}
+	}()
+	return isBlackTag(s), ""
+}
+
+// VerifIsBlackAttr is isBlackAttr.
+func VerifIsBlackAttr(s string) (r int, status string) {
+	defer func() {
+		if e := recover(); e != nil {
+			status = "PANIC"
+		}
+	}()
+	return isBlackAttr(s), ""
+}
+
+// VerifIsBlackURL is isBlackURL.
+func VerifIsBlackURL(s string) (r bool, status string) {
+	defer func() {
+		if e := recover(); e != nil {
+			status = "PANIC"
+		}
+	}()
+	return isBlackURL(s), ""
+}
+
+// VerifHTMLEncodeStartsWith is htmlEncodeStartsWith.
+func VerifHTMLEncodeStartsWith(a, b string) (r bool, status string) {
+	defer func() {
+		if e := recover(); e != nil {
+			status = "PANIC"
+		}
+	}()
+	return htmlEncodeStartsWith(a, b), ""
+}
+
+// VerifNamed is one entry of a black list.
+type VerifNamed struct {
+	Name string
+	Type int
+}
+
+// VerifTables is a copy of the package's data tables as the compiled package
+// holds them.
+type VerifTables struct {
+	Keywords    map[string]byte
+	BlackTags   []string
+	Blacks      []VerifNamed
+	BlackEvents []VerifNamed
+	HexMap      []int
+	Dispatch    []string
+	WordAccept  []byte
+	VarAccept   []byte
+	MaxTokens   int
+	TokenSize   int
+}
+
+// VerifGetTables returns copies of the data tables.
+func VerifGetTables() VerifTables {
+	t := VerifTables{MaxTokens: maxTokens, TokenSize: tokenSize}
+	t.Keywords = make(map[string]byte, len(sqlKeywords))
+	for k, v := range sqlKeywords {
+		t.Keywords[k] = v
+	}
+	t.BlackTags = append(t.BlackTags, blackTags...)
+	for _, b := range blacks {
+		t.Blacks = append(t.Blacks, VerifNamed{b.name, b.attributeType})
+	}
+	for _, b := range blackEvents {
+		t.BlackEvents = append(t.BlackEvents, VerifNamed{b.name, b.attributeType})
+	}
+	for _, v := range gsHexDecodeMap {
+		t.HexMap = append(t.HexMap, v)
+	}
+	for _, p := range byteParsers {
+		name := ""
+		if p != nil {
+			name = runtime.FuncForPC(reflect.ValueOf(p).Pointer()).Name()
+			if i := strings.LastIndexByte(name, '.'); i >= 0 {
+				name = name[i+1:]
+			}
+		}
+		t.Dispatch = append(t.Dispatch, name)
+	}
+	t.WordAccept = append(t.WordAccept, wordAcceptTable...)
+	t.VarAccept = append(t.VarAccept, varAcceptTable...)
+	return t
+}
